@@ -36,6 +36,9 @@ using std::list;
  */
 template <typename T>
 class Queue {
+#ifdef EBUSD_VERIF
+  friend struct VerifAccess;  // verification harness access (no behaviour change)
+#endif
  public:
   /**
    * Constructor.
